@@ -439,6 +439,12 @@ class RestAPI(object):
                 https://docs.aws.amazon.com/AmazonCloudWatch/latest/logs/iam-access-control-overview-cwl.html
                 """
                 logging_configuration = params.get("loggingConfiguration", {})
+                if not isinstance(logging_configuration, dict):
+                    self.logger.error(
+                        "RestAPI CreateStateMachine: Invalid logging configuration for State Machine '{}'.".format(name)
+                    )
+                    return aws_error("InvalidLoggingConfiguration"), 400
+
                 # Explicitly set default to OFF if not present in request.
                 logging_level = logging_configuration.get("level", "OFF")
                 logging_configuration["level"] = logging_level
@@ -728,6 +734,12 @@ class RestAPI(object):
                 """
                 logging_configuration = params.get("loggingConfiguration", {})
                 if logging_configuration:
+                    if not isinstance(logging_configuration, dict):
+                        self.logger.error(
+                            "RestAPI UpdateStateMachine: Invalid logging configuration for State Machine '{}'.".format(state_machine_arn)
+                        )
+                        return aws_error("InvalidLoggingConfiguration"), 400
+
                     # Explicitly set default to OFF if not present in request.
                     logging_level = logging_configuration.get("level", "OFF")
                     logging_configuration["level"] = logging_level
